@@ -128,15 +128,17 @@ def plan(tier, seed):
     npel = 2500 if tier == "quick" else 50000
     specs += [{"mode": "pels", "n": npel, "rseed": seed * 1000 + 100 + i, "registry": i % 2 == 0} for i in range(4)]
     ncli = 50 if tier == "quick" else 1000
-    specs += [{"mode": "cli", "n": ncli, "rseed": seed * 1000 + 200 + i, "registry": i % 2 == 0} for i in range(4)]
+    specs += [{"mode": "cli", "n": ncli, "rseed": seed * 1000 + 200 + i, "registry": i % 2 == 0} for i in range(3)]
+    specs += [{"mode": "sub", "n": 10 if tier == "quick" else 200, "rseed": seed * 1000 + 300}]
     return specs
 
 
 def minimums(tier, counters=None):
     if counters and counters.get("unattached.prettyPrint"):
-        return {"boundary.model_compared": 5000, "cli.stdout_parsed": 100, "cli.json_files_parsed": 20}
+        return {"boundary.model_compared": 5000, "cli.stdout_parsed": 100, "cli.json_files_parsed": 20, "sub.outputs_parsed": 40}
     return {"prettyPrint.checked": 20000, "prettyPrint.calls.width34": 15000, "prettyPrint.calls.width29": 40,
-            "cli.stdout_parsed": 100, "cli.json_files_parsed": 20, "hostile.colon_quote_in_string": 1000}
+            "cli.stdout_parsed": 100, "cli.json_files_parsed": 20, "hostile.colon_quote_in_string": 1000,
+            "sub.outputs_parsed": 40}
 
 
 def run(spec, ctx):
@@ -198,6 +200,8 @@ def run(spec, ctx):
                 if any(ln.count('":') > 1 for ln in o.text.split("\n")):
                     ctx.count("hostile.colon_quote_in_string")
         return
+    if spec["mode"] == "sub":
+        return run_sub(spec, ctx, rng, u)
     # CLI
     root = harness.scratch_root()
     for i in range(spec["n"]):
@@ -245,4 +249,75 @@ def run(spec, ctx):
             if attached and ("-l" in argv or "--src" in argv or "--plid" in argv or "--src-exclude" in argv):
                 if doc != STATE["last_in"]:
                     ctx.violation("C06/cli-list-differs", "%s printed a list different from the summary it built" % argv[2:])
+        d.remove()
+
+
+UNI = ["Ger\u00e4t \u00fcberhitzt \u2013 \u6e29\u5ea6", "\ud83d", "half \udc00 pair", "\U0001f525 fire", "nel\u0085x", "ls\u2028x", "ps\u2029x",
+       "\u00e9" * 40, "plain ascii", "tab\there", "quote \"\u00e9\": x"]
+
+
+def run_sub(spec, ctx, rng, u):
+    """peltool in its own process with a real stdout (pipe) / real files, several output encodings"""
+    import shutil
+    root = harness.scratch_root()
+    for i in range(spec["n"]):
+        d = dirs.PelDir(os.path.join(root, "s%d" % i))
+        docs = {}
+        for k in range(3):
+            doc = {u.token(6): rng.choice(UNI), u.token(6) + rng.choice(["", "\u00e9", "\udc00"]): [rng.choice(UNI), {"n": rng.choice(UNI)}]}
+            raw = json.dumps(doc)                       # ASCII with \uXXXX escapes: valid for every text incl. lone surrogates
+            pel = pm.Pel("O", pm.gen_ph(rng, u, "O"), pm.gen_uh(rng, "O", sev=0x40, flags=0xA000),
+                         [pm.sec_ud(rng, u, "O", 0x2000, 1, 1, gen.nul_pad(raw.encode()), expect_mode="json"), pm.gen_mt(rng, u, "O")])
+            e = dirs.Entry("p%d_%08X.pel" % (k, pel.eid), pel, pel.encode())
+            d.add(e)
+            docs[pel.eid] = doc
+        outdir = os.path.join(root, "so%d" % i)
+        for envx in ({}, {"PYTHONIOENCODING": "ascii"}, {"PYTHONIOENCODING": "utf-8:strict"}, {"LC_ALL": "C", "PYTHONUTF8": "0", "PYTHONCOERCECLOCALE": "0"}):
+            for argv in (["-p", d.root, "-a"], ["-f", d.entries[0].path], ["-p", d.root, "-j", "-o", outdir], ["-p", d.root, "-l"]):
+                shutil.rmtree(outdir, ignore_errors=True)
+                os.makedirs(outdir)
+                ctx.current = {"argv": argv, "env": envx, "user_data": {hex(k): v for k, v in list(docs.items())[:2]}}
+                ctx.case(repr(argv) + repr(sorted(envx.items())) + str(i) + str(spec["rseed"]), True,
+                         sample={"argv": argv[2:] if argv[0] == "-p" else argv[:1], "env": envx} if i == 0 else None)
+                p = harness.cli_sub(argv, extra_env=envx)
+                if p is None or p.returncode != 0:
+                    ctx.violation("C06/sub-failed", "peltool %s (env %s): rc=%s stderr=%r" %
+                                  (argv[-2:], envx, getattr(p, "returncode", "watchdog"), (p.stderr if p else b"")[-300:]))
+                    continue
+                texts = []
+                if "-j" in argv:
+                    for fn in sorted(os.listdir(outdir)):
+                        with open(os.path.join(outdir, fn), "rb") as f:
+                            texts.append(f.read())
+                    if len(texts) != 3:
+                        ctx.violation("C06/sub-json-files", "-j (env %s) wrote %d files for 3 PELs; stderr=%r" % (envx, len(texts), p.stderr[-300:]))
+                else:
+                    texts.append(p.stdout)
+                for t in texts:
+                    try:
+                        got = json.loads(t.decode(envx.get("PYTHONIOENCODING", "utf-8").split(":")[0], "surrogatepass"))
+                        ctx.count("sub.outputs_parsed")
+                    except Exception as e:
+                        ctx.violation("C06/sub-output-not-json", "output of peltool %s (env %s) does not parse: %s" % (argv[-2:], envx, e),
+                                      tail=t[-300:])
+                        continue
+                    found = got if isinstance(got, list) else [got]
+                    if "-l" in argv:
+                        if len(got) != 3:
+                            ctx.violation("C06/sub-list", "-l (env %s) lists %d of 3 PELs" % (envx, len(got)))
+                        continue
+                    for docx in found:
+                        try:
+                            eid = pm.as_hex(docx["Private Header"]["Entry Id"])
+                        except Exception:
+                            ctx.violation("C06/sub-document", "a printed document has no entry id (env %s)" % (envx,))
+                            continue
+                        want = docs.get(eid, {})
+                        bad = [k for k, v in want.items() if docx.get("User Data", {}).get(k) != v]
+                        if bad:
+                            ctx.violation("C06/sub-value-changed", "peltool %s (env %s): user data %r printed as %r, decoded value %r" %
+                                          (argv[-2:], envx, bad[0], docx.get("User Data", {}).get(bad[0]), want[bad[0]]))
+                    if argv[-1] == "-a" and len(found) != 3:
+                        ctx.violation("C06/sub-array", "-a (env %s) printed %d of 3 documents" % (envx, len(found)))
+        shutil.rmtree(outdir, ignore_errors=True)
         d.remove()
